@@ -1,10 +1,10 @@
 package rules
 
 import (
-	"strconv"
 	"fmt"
 	"go/token"
 	"sort"
+	"strconv"
 	"strings"
 
 	"golang.org/x/tools/go/ssa"
@@ -74,9 +74,9 @@ type symEval struct {
 	c *Ctx
 	// model of a call: ok=false leaves the call to the evaluator (module callees are entered, others become expressions)
 	model func(se *symEval, name string, call *ssa.CallCommon, args []sval, st *sstate) (outs []sval, ok bool)
-	truth func(e string) int         // +1 / -1 / 0 for a condition expression
+	truth func(e string) int              // +1 / -1 / 0 for a condition expression
 	field func(base, field string) string // the value of base.field ("" = base.field)
-	elem  func(slice string) string  // the generic element of a slice ("" = ELEM(slice))
+	elem  func(slice string) string       // the generic element of a slice ("" = ELEM(slice))
 	norm  func(e string) string
 	// nonEmpty: the collection a loop ranges over has at least one element (the zero-iteration path is not taken)
 	nonEmpty func(coll string) bool
